@@ -256,7 +256,7 @@ RECIPES = {
     "C18": {
         "level": "model_checking",
         "mc": {"quick": [("MC_Prefix", "MC_Prefix_q", 12)], "thorough": [("MC_Prefix", "MC_Prefix_t", 14)]},
-        "families": {"quick": [("prefix", 2, 4)], "thorough": [("prefixall", 1, 6), ("prefix", 12, 6)]},
+        "families": {"quick": [("prefix", 2, 4)], "thorough": [("prefixall", 1, 6), ("prefix", 8, 6)]},
         "reasons": ("value", "panic"),
         "tags": Q_ALL + SQ_ALL,
         "rule": "A: a template object built in TLA+ from the ABI (7 sections: names, .dynstr, .dynsym, .dynamic, note, text; "
